@@ -157,6 +157,9 @@ def env_noise(s, allow_faults=True, pfault=0.12):
         d = dict(op="ack", i=r.choice([0, 0, 0, 1, 2]))
         if r.random() < 0.6: d["props"] = s.ackprops()
         if r.random() < 0.2: d["short"] = r.choice([1, 2])
+        # a reason code other than Success where MQTT admits it for that acknowledgement (PUBACK / PUBREC: 0x10 and the
+        # failures, PUBCOMP: 0x92); a PUBREC below 0x80 is not final, the exchange must go on to PUBREL / PUBCOMP
+        elif r.random() < 0.45: d["rcx"] = r.choice(PUBACK_RCS[3:] + [16, 16, 146, 146])
         s.steps.append(d)
     elif k < 0.56:
         if s.held: s.add(op="unhold"); s.held = False
